@@ -72,6 +72,7 @@ impl Db {
                 Ok(match (best, best_text) { (Some((_, sv)), _) => sv, (None, Some(s)) => SV::Text(s), _ => SV::Null })
             }).unwrap();
         }
+        conn.create_scalar_function("char_length", 1, det, |ctx| Ok(match ctx.get_raw(0) { ValueRef::Text(t) => SV::Integer(String::from_utf8_lossy(t).chars().count() as i64), ValueRef::Null => SV::Null, _ => SV::Null })).unwrap();
         // CONCAT (SQLite gets it in 3.44): PostgreSQL semantics, NULL arguments are ignored
         conn.create_scalar_function("concat", -1, det, |ctx| {
             let mut s = String::new();
